@@ -16,6 +16,7 @@ compared with that theorem's value, the other observations with the model) and t
 variants (impl vs model only)."""
 import io
 from tools.lib.framework import impl_call
+from tools.lib.streams import Streams, draw_kind
 
 CLAIMED = True
 CONFIG = {'assumptions': [
@@ -61,7 +62,8 @@ RULE = ('cases: version-definition / version-requirement sections with 0..14 ent
         'version-symbol tables of 0..300 symbols with arbitrary index/hidden bit, reserved values, strides >= entry size, '
         'over symbol tables of the same or a larger (0..4 more) symbol count; '
         'both classes and byte orders, EI_OSABI among SYSV/Linux/Solaris/FreeBSD/OpenBSD/ARM/standalone/unknown, the '
-        'image handed to ELFFile as io.BytesIO or (every third image) as an mmap.mmap, sections and header table in random file order at unaligned offsets, names 0..130 '
+        'image handed to ELFFile as a stream kind of tools/lib/streams.py drawn per case (BytesIO 60%, else real file '
+        'plain/warm/at-EOF/16-byte buffer, mmap, gzip, decoy descriptor; malformed cases not on mmap), sections and header table in random file order at unaligned offsets, names 0..130 '
         'bytes of 1-4 byte UTF-8, string tables with or WITHOUT a leading NUL (a non-empty name at offset 0, name '
         'fields equal to 0 drawn); a depth-and-size stream (per kind one entry with ~1010 (thorough ~3000) auxiliaries and '
         'one chain of as many single-auxiliary entries, the implementation observed under CPython\'s default '
@@ -277,7 +279,8 @@ def _gen_chain_case(rng, kind, big, cfg=None, tab=None, counts=None, mode=None):
     if len(idxs) > 14:
         idxs = sorted(rng.sample(idxs, 14))
     plan = _file_plan(rng, ['shstr', 'target', 'strtab'])
-    return [le, is64, machine, entries, bg, strtab, plan, idxs, ['none'], mode + '/' + flavour, rng.choice(OSABIS)]
+    return [le, is64, machine, entries, bg, strtab, plan, idxs, ['none'], mode + '/' + flavour, rng.choice(OSABIS),
+            draw_kind(rng)]
 
 
 def _gen_long_case(rng, kind, K, M):
@@ -341,9 +344,17 @@ def _end_chain(rng, case, kind):
     return case
 
 
+def _no_mmap(case, i):
+    """malformed cases read beyond the end of the file: mmap.seek raises ValueError there where every file-like
+    stream just reads nothing, so they are observed on the other stream kinds"""
+    if len(case) > i and case[i] == 'mmap':
+        case[i] = 'file'
+
+
 def _malform_chain(rng, case, kind):
     """derive an out-of-domain variant (error behaviour / garbage walk): impl vs model only"""
     case = [c for c in case]
+    _no_mmap(case, 11)
     entries = _copy_entries(case[3])
     what = rng.choice(['cnt0', 'info+', 'cut', 'linktype', 'info-', 'strtab_unterminated', 'entloop', 'auxloop',
                        'wrap', 'wrap'])
@@ -444,11 +455,12 @@ def _gen_versym_case(rng, big, cfg=None, tab=None):
     symtype = SHT['dynsym'] if rng.random() < 0.8 else SHT['symtab']
     plan = _file_plan(rng, ['shstr', 'target', 'symtab', 'strtab'])
     return [le, is64, machine, entries, vs_ent, sym_ent, vs_bg, sym_bg, strtab, symtype, plan, ['none'],
-            rng.choice(OSABIS)]
+            rng.choice(OSABIS), draw_kind(rng)]
 
 
 def _malform_versym(rng, case):
     case = list(case)
+    _no_mmap(case, 13)
     what = rng.choice(['entsize0', 'vs_longer', 'symtype', 'strtype', 'sym_entsize0', 'sym_size', 'cut'])
     n = len(case[3])
     if what == 'entsize0':
@@ -506,13 +518,14 @@ def _gen_combo_case(rng, big):
     return [cfg[0], cfg[1], cfg[2],
             [d[3], d[4], d[5], d[7]], [n[3], n[4], n[5], n[7]],
             [v[3], v[4], v[5], v[6], v[7], v[8], v[9]],
-            plan, order, how, tabs, ['none'], rng.choice(OSABIS)]
+            plan, order, how, tabs, ['none'], rng.choice(OSABIS), draw_kind(rng)]
 
 
 def _malform_combo(rng, case):
     """one of the three string tables gets a non-STRTAB type: instantiating the section(s) linked to it must fail,
     the others must not be affected (impl vs model only)"""
     case = list(case)
+    _no_mmap(case, 12)
     case[8] = 'get_section'
     case[10] = ['linktype', rng.choice(['strd', 'strn', 'strs']), rng.choice([SHT['progbits'], SHT['null'], SHT['dynsym']])]
     return case
@@ -689,19 +702,17 @@ def _nm(s):
     return 'none' if s is None else s.encode('utf-8')
 
 
-def _stream(img):
-    """the library reads any seekable binary stream: two images out of three are handed over as io.BytesIO, the third
-    as a memory map (mmap.mmap, anonymous) - chosen by the image itself, so a replay sees the same stream kind"""
-    if len(img) % 3 == 0:
-        import mmap
-        m = mmap.mmap(-1, len(img))
-        m.write(img)
-        m.seek(0)
-        return m
-    return io.BytesIO(img)
+STREAMS = [None]     # the Streams() of the running evaluate() call (temporary files removed when it ends)
 
 
-def _chain_opener(kind, img, n, elf=None):
+def _stream(img, sk):
+    """the image as the stream kind [sk] of tools/lib/streams.py (same bytes whatever the kind)"""
+    if STREAMS[0] is None or sk == 'bytesio':
+        return io.BytesIO(img)
+    return STREAMS[0].open(img, sk)
+
+
+def _chain_opener(kind, img, n, elf=None, sk='bytesio'):
     """() -> section object n as a GNUVerDef/GNUVerNeedSection; from a fresh ELFFile, or from the given one"""
     from elftools.elf.elffile import ELFFile
     from elftools.elf.gnuversions import GNUVerDefSection, GNUVerNeedSection
@@ -709,7 +720,7 @@ def _chain_opener(kind, img, n, elf=None):
     tag = 'not-a-' + cls.__name__
 
     def open_sec():
-        f = elf if elf is not None else ELFFile(_stream(img))
+        f = elf if elf is not None else ELFFile(_stream(img, sk))
         sec = f.get_section(n)
         if not isinstance(sec, cls):
             raise type(tag, (Exception,), {})()
@@ -718,10 +729,10 @@ def _chain_opener(kind, img, n, elf=None):
 
 
 @_stock_interpreter
-def _impl_chain(kind, img, n, idxs, elf=None, sec=None):
+def _impl_chain(kind, img, n, idxs, elf=None, sec=None, sk='bytesio'):
     """sec: an already instantiated section (or the error list of its instantiation); elf: the ELFFile further
     section objects are taken from (has_indexes is observed on a second object of the same file)"""
-    open_sec = _chain_opener(kind, img, n, elf)
+    open_sec = _chain_opener(kind, img, n, elf, sk)
     if sec is None:
         sec = impl_call(open_sec)
     if isinstance(sec, list):
@@ -755,19 +766,22 @@ def _impl_chain(kind, img, n, idxs, elf=None, sec=None):
         return ['ok', ['some', [_rec(v.entry), _nm(v.name), [_rec(a.entry), _nm(a.name)]]]]
     res = [impl_call(walk), impl_call(lambda: ['ok', sec.num_versions()]), [impl_call(getv, i) for i in idxs]]
     if kind == 'verneed':
-        sec2 = open_sec()       # a fresh object: get_version/iter_versions above do not touch the memo, but keep it clean
-        r1 = impl_call(lambda: ['ok', int(sec2.has_indexes())])
-        r2 = impl_call(lambda: ['ok', int(sec2.has_indexes())])
-        res.append(['ok', [r1, r2]])
+        sec2 = impl_call(open_sec)   # a fresh object: get_version/iter_versions above do not touch the memo, but keep it clean
+        if isinstance(sec2, list):
+            res.append(sec2)
+        else:
+            r1 = impl_call(lambda: ['ok', int(sec2.has_indexes())])
+            r2 = impl_call(lambda: ['ok', int(sec2.has_indexes())])
+            res.append(['ok', [r1, r2]])
     return res, impl_call(walk_deferred)
 
 
-def _versym_opener(img, n, elf=None):
+def _versym_opener(img, n, elf=None, sk='bytesio'):
     from elftools.elf.elffile import ELFFile
     from elftools.elf.gnuversions import GNUVerSymSection
 
     def open_sec():
-        f = elf if elf is not None else ELFFile(_stream(img))
+        f = elf if elf is not None else ELFFile(_stream(img, sk))
         sec = f.get_section(n)
         if not isinstance(sec, GNUVerSymSection):
             raise type('not-a-GNUVerSymSection', (Exception,), {})()
@@ -776,9 +790,9 @@ def _versym_opener(img, n, elf=None):
 
 
 @_stock_interpreter
-def _impl_versym(img, n, elf=None, sec=None):
+def _impl_versym(img, n, elf=None, sec=None, sk='bytesio'):
     if sec is None:
-        sec = impl_call(_versym_opener(img, n, elf))
+        sec = impl_call(_versym_opener(img, n, elf, sk))
     if isinstance(sec, list):
         return [sec, sec]
     walk = impl_call(lambda: ['ok', [[s['ndx'], _nm(s.name)] for s in sec.iter_symbols()]])
@@ -834,7 +848,7 @@ def corpus(ctx):
                         t = elf._get_section_header(i)['sh_type']
                         if t in ('SHT_GNU_verdef', 'SHT_GNU_verneed', 'SHT_GNU_versym'):
                             seen.add(fn)
-                            out.append(('file_' + t[8:], [d + '/' + fn, i]))
+                            out.append(('file_' + t[8:], [d + '/' + fn, i, draw_kind(ctx.rng)]))
             except Exception:
                 continue
     return out
@@ -897,7 +911,8 @@ def _evaluate_files(ctx, cases):
     from elftools.elf.elffile import ELFFile
     reqs = []
     work = []
-    for kind, (rel, n) in cases:
+    for kind, a in cases:
+        rel, n = a[0], a[1]
         base = kind[5:]
         data = open(os.path.join(str(REPO), rel), 'rb').read()
         elf = ELFFile(io.BytesIO(data))
@@ -924,15 +939,17 @@ def _evaluate_files(ctx, cases):
     answers = ctx.driver.batch(reqs)
     for (kind, a), (base, data, n, idxs, recs), ans in zip(cases, work, answers):
         wf = ans[0] == 1
+        sk = a[2] if len(a) > 2 and (wf or a[2] != 'mmap') else 'bytesio'
+        ctx.bump('stream_kind', sk)
         if base == 'versym':
             names = ['iter_symbols', 'num_symbols']
             model, spec = [ans[1], ans[3]], [ans[2], ans[4]]
-            impl = _impl_versym(data, n)
+            impl = _impl_versym(data, n, sk=sk)
         else:
             names = ['iter_versions', 'num_versions', 'get_version'] + (['has_indexes'] if base == 'verneed' else [])
             model = [ans[1], ans[3], ans[5]] + ([ans[7]] if base == 'verneed' else [])
             spec = [ans[2], ans[4], ans[6]] + ([ans[8]] if base == 'verneed' else [])
-            impl, deferred = _impl_chain(base, data, n, idxs)
+            impl, deferred = _impl_chain(base, data, n, idxs, sk=sk)
             if wf:
                 names, impl = names + ['iter_versions_deferred'], impl + [deferred]
                 model, spec = model + [model[0]], spec + [spec[0]]
@@ -943,16 +960,24 @@ def _evaluate_files(ctx, cases):
 
 
 def evaluate(ctx, cases):
-    files = [c for c in cases if c[0].startswith('file_')]
-    if files:
-        _evaluate_files(ctx, files)
-    combos = [c for c in cases if c[0].startswith('combo')]
-    for i in range(0, len(combos), 400):
-        _evaluate_combo(ctx, combos[i:i + 400])
-    cases = [c for c in cases if not c[0].startswith('file_') and not c[0].startswith('combo')]
-    # bounded batches keep the driver's request/answer texts small in the thorough tier
-    for i in range(0, len(cases), 1500):
-        _evaluate(ctx, cases[i:i + 1500])
+    with Streams(prefix='pv-streams-c15-') as S:
+        STREAMS[0] = S
+        try:
+            files = [c for c in cases if c[0].startswith('file_')]
+            if files:
+                _evaluate_files(ctx, files)
+                S.drop_files()
+            combos = [c for c in cases if c[0].startswith('combo')]
+            for i in range(0, len(combos), 400):
+                _evaluate_combo(ctx, combos[i:i + 400])
+                S.drop_files()
+            cases = [c for c in cases if not c[0].startswith('file_') and not c[0].startswith('combo')]
+            # bounded batches keep the driver's request/answer texts small in the thorough tier
+            for i in range(0, len(cases), 1500):
+                _evaluate(ctx, cases[i:i + 1500])
+                S.drop_files()
+        finally:
+            STREAMS[0] = None
 
 
 def _evaluate(ctx, cases):
@@ -1052,13 +1077,15 @@ def _evaluate(ctx, cases):
     # ---- the implementation, and the verdicts
     for (kind, c), (img, n, fits), ans in zip(cases, built, answers):
         base = kind.split('_')[0]
+        ki = 11 if base in ('verdef', 'verneed') else 13
+        sk = c[ki] if len(c) > ki else 'bytesio'
         wf = ans[0] == 1 and fits
         if base in ('verdef', 'verneed'):
             idxs = c[7]
             names = ['iter_versions', 'num_versions', 'get_version'] + (['has_indexes'] if base == 'verneed' else [])
             model = [ans[1], ans[3], ans[5]] + ([ans[7]] if base == 'verneed' else [])
             spec = [ans[2], ans[4], ans[6]] + ([ans[8]] if base == 'verneed' else [])
-            impl, deferred = _impl_chain(base, img, n, idxs)
+            impl, deferred = _impl_chain(base, img, n, idxs, sk=sk)
             nrec = sum(1 + len(e[-1]) for e in c[3])
             ctx.bump(base + '_entries', len(c[3]) if len(c[3]) < 7 else '7+')
             ctx.bump(base + '_placement', c[9] if len(c) > 9 else '?')
@@ -1067,7 +1094,7 @@ def _evaluate(ctx, cases):
             names = ['iter_symbols', 'num_symbols']
             model = [ans[1], ans[3]]
             spec = [ans[2], ans[4]]
-            impl = _impl_versym(img, n)
+            impl = _impl_versym(img, n, sk=sk)
             nrec = len(c[3])
             ctx.bump('versym_len', nrec if nrec < 3 else '3-12' if nrec <= 12 else '13-60' if nrec <= 60 else '100+')
             ctx.bump('versym_strides', '%d/%d' % (c[4], c[5] - (24 if c[1] else 16)))
@@ -1086,7 +1113,7 @@ def _evaluate(ctx, cases):
             model, spec = model + [model[0]], spec + [spec[0]]
         ctx.bump('class/order', ('64' if c[1] else '32') + ('LE' if c[0] else 'BE'))
         ctx.bump('in_domain', kind + ':' + str(in_domain))
-        ctx.bump('stream', 'mmap' if len(img) % 3 == 0 else 'BytesIO')
+        ctx.bump('stream_kind', sk)
         ctx.bump('EI_OSABI', img[7])
         if not malformed and not in_domain:
             ctx.bump('generator_left_domain', kind)
@@ -1103,10 +1130,10 @@ COMBO_NAMES = {'shstr': b'.shstrtab', 'vdef': b'.gnu.version_d', 'vneed': b'.gnu
 
 
 @_stock_interpreter
-def _impl_combo(img, index, order, how, d_idxs, n_idxs, deferred):
+def _impl_combo(img, index, order, how, d_idxs, n_idxs, deferred, sk='bytesio'):
     """ONE ELFFile; the three sections are instantiated in [order], only then observed (in the same order)"""
     from elftools.elf.elffile import ELFFile
-    elf = impl_call(lambda: ELFFile(_stream(img)))
+    elf = impl_call(lambda: ELFFile(_stream(img, sk)))
     if isinstance(elf, list):
         return {r: elf for r in order}
     openers = {'vdef': _chain_opener('verdef', img, index['vdef'], elf),
@@ -1213,6 +1240,7 @@ def _evaluate_combo(ctx, cases):
     for j, ((kind, c), (img, index, fits)) in enumerate(zip(cases, built)):
         ad, an, av = answers[3 * j:3 * j + 3]
         malformed = kind.endswith('_malformed')
+        sk = c[12] if len(c) > 12 else 'bytesio'
         in_domain = fits and ad[0] == 1 and an[0] == 1 and av[0] == 1 and not malformed
         model = {'vdef': [ad[1], ad[3], ad[5]], 'vneed': [an[1], an[3], an[5], an[7]], 'versym': [av[1], av[3]]}
         spec = {'vdef': [ad[2], ad[4], ad[6]], 'vneed': [an[2], an[4], an[6], an[8]], 'versym': [av[2], av[4]]}
@@ -1224,7 +1252,7 @@ def _evaluate_combo(ctx, cases):
         names, impl_f, model_f, spec_f = [], [], [], []
         # the same file, a fresh ELFFile per run: the three sections instantiated in [order], then in reverse order
         for tag, o in (('', order), ('reversed:', order[::-1])):
-            got = _impl_combo(img, index, o, how, c[3][3], c[4][3], in_domain)
+            got = _impl_combo(img, index, o, how, c[3][3], c[4][3], in_domain, sk)
             for r in ('vdef', 'vneed', 'versym'):
                 nm = obs_names[r] + (['iter_versions_deferred'] if in_domain and r != 'versym' else [])
                 names += ['%s%s.%s' % (tag, r, x) for x in nm]
@@ -1235,7 +1263,7 @@ def _evaluate_combo(ctx, cases):
             model_f = _replace_invalid_utf8(model_f)
         ctx.bump('in_domain', kind + ':' + str(in_domain))
         ctx.bump('class/order', ('64' if c[1] else '32') + ('LE' if c[0] else 'BE'))
-        ctx.bump('stream', 'mmap' if len(img) % 3 == 0 else 'BytesIO')
+        ctx.bump('stream_kind', sk)
         ctx.bump('EI_OSABI', img[7])
         ctx.bump('combo_tables', c[9])
         ctx.bump('combo_instantiation', how + ':' + '>'.join(order))
